@@ -182,6 +182,7 @@ where
     match v["k"].as_str().unwrap_or("") {
         "leaf" => {
             let l = RecLayer::new(stack, v["id"].as_u64().unwrap_or(0) as usize);
+            l.cfg.emit_in_register.store(v["emit"].as_bool().unwrap_or(false), std::sync::atomic::Ordering::SeqCst);
             leaves.push(l.clone());
             Box::new(l)
         }
